@@ -29,6 +29,7 @@ ASSUMPTIONS = [
     'a CONNECT answered with a DOMAINNAME-typed success reply is only required to produce exactly one outcome (three-valued)',
     'an exception escaping dataReceived is followed by connectionLost, as Twisted transports do (three-valued: the attempt must then have failed exactly once)',
 ]
+BOUNDS_NOTE = 'c05_big_payload: application data of 1..70000 bytes coalesced with a success reply'
 BOUNDS = {'quick': {'cuts': '1 symbolic cut, plus all-in-one-chunk and byte-by-byte', 'stream_bytes': '<=29', 'app_bytes': 5, 'reply_codes': '0..255', 'atyp': '0..255', 'domain_len': '0..3'},
           'thorough': {'cuts': '2 symbolic cuts'}}
 OUTSIDE = ['GSSAPI / username-password methods', 'more than 2 symbolic cut points (byte-by-byte is the only finer segmentation)', 'with symbolic cuts the offending header field ranges over the boundary set {0,1,2,4,6,8,9,255} only', 'application data longer than 5 bytes']
@@ -226,6 +227,13 @@ def _run(req_type, stream, cuts, disc_after):
         else:
             if o.fired:
                 return R('outcome-before-any-decision', 'kind %s delivered %d/%d', kind, delivered, len(stream))
+    # a party that asks for the outcome only now (as TorSocksEndpoint.connect does once the proxy connection is up) hears the same one
+    if o.fired:
+        late = fakes.Outcome(p.when_done())
+        if late.fired != 1 or late.ok != o.ok or late.err != o.err:
+            return R('late-request-told-a-different-outcome', 'first ok=%d err=%d, late fired=%d ok=%d err=%d %r', o.ok, o.err, late.fired, late.ok, late.err, late.exc())
+        if o.ok and late.value is not o.value and late.value != o.value:
+            return R('late-request-told-a-different-outcome', 'first %r, late %r', o.value, late.value)
     reached()
     return ''
 
@@ -353,3 +361,23 @@ def c05_one_chunk(v1: int, m: int, v2: int, rep: int, rsv: int, atyp: int, dlen:
     s = _prep(rt, cls, v1, m, v2, rep, rsv, atyp, dlen, True)
     assume(0 <= disc <= 1)
     return _run(RT[rt], s, [], disc)
+
+
+_BIG = (1, 240, 250, 251, 252, 253, 256, 263, 300, 4096, 70000)
+
+
+@cond(quick=dict(parts=[{'atyp': a, 'with_method': w} for a in (1, 4) for w in (False, True)], budget=150))
+def c05_big_payload(nb: int, c1: int, disc: int, atyp: int, with_method: bool) -> str:
+    """a CONNECT success reply with a large amount of application data behind it, cut at one symbolic offset inside the reply
+    (or not at all): sizes around the longest possible SOCKS reply (262 bytes) and well beyond; the method reply arrives
+    with the rest (with_method) or on its own before it"""
+    nb = api.pick_from(nb, _BIG)
+    head = b'\x05\x00' + b'\x05\x00\x00' + (b'\x01' + V4ADDR if atyp == 1 else b'\x04' + V6ADDR) + b'\x12\x34'
+    n_rep = len(head)
+    assume(0 <= c1 <= n_rep)
+    assume(0 <= disc <= 2)
+    with api.no_tracing():
+        payload = bytes((i * 7 + 3) % 251 for i in range(nb))
+    s = head + payload
+    cuts = [c1] if with_method else sorted(set([2, max(c1, 2)]))
+    return _run('CONNECT', s, cuts, disc if with_method else disc + (len(cuts) - 1))
